@@ -945,12 +945,50 @@ def run_scenario(sc, on_read=None):
     import shutil
     import os
     rnd = random.Random(sc["dataseed"])
-    data = bytes(rnd.randrange(256) for _ in range(sc["size"]))
+    if sc["size"] > 100000:
+        chunk = bytes(rnd.randrange(256) for _ in range(65521))
+        data = (chunk * (sc["size"] // len(chunk) + 1))[:sc["size"]]
+    else:
+        data = bytes(rnd.randrange(256) for _ in range(sc["size"]))
     out = {"groups": [], "upload": "ok"}
+    from allmydata.immutable.downloader.node import DownloadNode
+    saved_guess = DownloadNode.default_max_segment_size
+    if sc.get("gmax"):
+        # the reader's segment-size guess (class attribute used by _build_guessed_tables) differs from the
+        # max_segment_size the file was encoded with
+        DownloadNode.default_max_segment_size = sc["gmax"]
+    try:
+        return _run_scenario(sc, data, out)
+    finally:
+        DownloadNode.default_max_segment_size = saved_guess
+
+
+def next_multiple(x, k):
+    return -(-x // k) * k
+
+
+def guess_relation(sc, off):
+    """how the segment number computed from the guessed segment size relates to the real one"""
+    k, size = sc["k"], sc["size"]
+    from allmydata.interfaces import DEFAULT_IMMUTABLE_MAX_SEGMENT_SIZE
+    seg = next_multiple(min(sc["segsize"], size), k)
+    guess = next_multiple(min(size, sc.get("gmax") or DEFAULT_IMMUTABLE_MAX_SEGMENT_SIZE), k)
+    gs, rs = (0 if off == 0 else off // guess), off // seg
+    nseg = -(-size // seg)
+    return "beyond" if gs >= nseg else "lt" if gs < rs else "eq" if gs == rs else "gt"
+
+
+def _run_scenario(sc, data, out):
+    import random
+    from allmydata.immutable import upload
+    from allmydata.util.consumer import MemoryConsumer
+    from allmydata import uri
+    import shutil
+    import os
     with fault_grid(sc["grid_seed"], sc["policy"], "c03", num_servers=sc["servers"], num_clients=1,
                     k=sc["k"], happy=1, n=sc["n"], max_segment_size=sc["segsize"]) as (rt, g):
         c = g.clients[0]
-        (st, res), = wait_all(rt, [c.upload(upload.Data(data, convergence=b"c" * 16))])
+        (st, res), = wait_all(rt, [c.upload(upload.Data(data, convergence=b"c" * 16))], max_steps=20000000)
         if st != "ok":
             out["upload"] = st
             return out
@@ -998,6 +1036,9 @@ def run_scenario(sc, on_read=None):
                     "placement": sorted([srv, shnum, st] for (srv, shnum), st in state.items())})
         node = c.create_node_from_uri(cap)
         for group in sc["reads"]:
+            if sc.get("fresh_nodes"):
+                c.nodemaker._node_cache.clear()       # the nodemaker caches immutable nodes by cap
+                node = c.create_node_from_uri(cap)    # first read(s) on a fresh node: segment size not known yet
             mcs = [MemoryConsumer() for _ in group]
             ds = [node.read(mc, off, sz) for mc, (off, sz) in zip(mcs, group)]
             # hung servers are eventually dropped (so that "every server has answered or failed")
@@ -1005,7 +1046,8 @@ def run_scenario(sc, on_read=None):
                 if kind == "hang-then-drop" and int(s) in g.wrappers:
                     w = g.wrappers[int(s)]
                     rt.clock.callLater(30 + delay, w.drop)
-            results = wait_all(rt, ds, horizon=60 + 40 * maxdelay + 200)
+            results = wait_all(rt, ds, horizon=60 + 40 * maxdelay + 200,
+                               max_steps=400000 if sc["size"] <= 100000 else 5000000)
             outs = []
             for (st, val), mc, (off, sz) in zip(results, mcs, group):
                 if st == "ok":
@@ -1125,3 +1167,54 @@ def run_late_error(sc):
         else:
             out["result"] = "stuck"
     return out
+
+
+# ----------------------------------------------------------------------------- the reader's segment-size guess is wrong
+
+def gen_badguess_scenario(rng, faults=True):
+    """A file encoded with a max_segment_size larger or smaller than the reader's guess; every read group
+    is the first use of a fresh node (real segment size unknown), at offsets around guessed / real segment
+    boundaries, incl. offsets whose guessed segment number is >= the real number of segments."""
+    k = rng.choice([1, 2, 3])
+    n = rng.choice([x for x in (2, 3, 4, 5) if x >= k])
+    segsize = rng.choice([40, 64, 128, 250, 1000])
+    gmax = rng.choice([x for x in (17, 40, 64, 129, 300, 1 << 20) if x != segsize])
+    size = rng.choice([257, 333, 500, 700, 1000])
+    sc = {"kind": "grid", "k": k, "n": n, "servers": rng.choice([n, n, max(1, n - 1), n + 2]), "segsize": segsize,
+          "gmax": gmax, "fresh_nodes": True, "size": size,
+          "grid_seed": rng.randrange(1 << 30), "policy": rng.choice(["random", "random", "fifo"]),
+          "dataseed": rng.randrange(1 << 30), "copies": [], "share_faults": [], "server_plans": {}, "reads": [], "crafted": []}
+    seg = next_multiple(min(segsize, size), k)
+    guess = next_multiple(min(size, gmax), k)
+    nseg = -(-size // seg)
+    bounds = sorted({b for b in list(range(0, size + 1, seg)) + list(range(0, size + 1, guess)) if 0 < b < size})
+    beyond = [o for o in range(1, size) if o // guess >= nseg]
+
+    def one_read():
+        r = rng.random()
+        if beyond and r < 0.35:
+            off = rng.choice([beyond[0], beyond[-1], rng.choice(beyond)])
+        elif bounds and r < 0.85:
+            off = rng.choice(bounds) + rng.choice([-1, 0, 0, 1, 2, seg // 2, guess // 2, -(guess // 2)])
+        else:
+            off = rng.randrange(0, size)
+        off = max(0, min(off, size - 1))
+        return [off, rng.choice([1, 2, 7, guess, seg, seg + 1, size - off, rng.randrange(1, size - off + 1)])]
+    for i in range(rng.choice([2, 3, 4])):
+        sc["reads"].append([one_read() for _ in range(rng.choice([1, 1, 2, 3]))])
+    if faults and rng.random() < 0.5:
+        for i in range(rng.choice([1, 2])):
+            sc["share_faults"].append([rng.randrange(64), rng.choice(["delete"] + REGIONS), rng.randrange(1 << 30)])
+        if rng.random() < 0.5:
+            sc["server_plans"][str(rng.randrange(sc["servers"]))] = [rng.choice(SERVER_PLANS[3:]), rng.randrange(1, 12),
+                                                                    rng.choice([1, 5, 11])]
+    return sc
+
+
+def big_badguess_scenario():
+    """nothing patched: 3 MiB file encoded with 2 MiB segments, reader guesses the 1 MiB default"""
+    mib = 1 << 20
+    return {"kind": "grid", "k": 1, "n": 2, "servers": 2, "segsize": 2 * mib, "fresh_nodes": True, "size": 3 * mib,
+            "grid_seed": 11, "policy": "random", "dataseed": 77, "copies": [], "share_faults": [], "server_plans": {},
+            "crafted": [],
+            "reads": [[[2 * mib + mib // 2, 5000]], [[mib + 5, 1000]], [[3 * mib - 10, 10], [2 * mib + 1, 70000]], [[1, 10]]]}
